@@ -14,10 +14,15 @@ gvars == <<vars, hist, finished>>
 
 ValsOf(ks) == [i \in 1..Len(ks) |-> 10 + i]
 StoreOf(P) == [k \in Keys |-> IF k \in P THEN Preset ELSE Absent]
-Vector(P, o, s) == LET rm == RefMulti(o, s, ValsOf(s), StoreOf(P))
-                   IN [present |-> StoreOf(P), op |-> o, ks |-> s, vals |-> ValsOf(s), exp |-> rm[1], after |-> rm[2]]
-Vectors == {Vector(P, o, s) : P \in SUBSET Keys, o \in Ops, s \in KeySeqs}
-ASSUME EmitVectors => \A v \in Vectors : PrintT("@@VEC " \o ToJson(v))
+Vector(P, o, s, F) == LET rm == RefMulti(o, s, ValsOf(s), StoreOf(P), F)
+                      IN [present |-> StoreOf(P), op |-> o, ks |-> s, vals |-> ValsOf(s), exp |-> rm[1], after |-> rm[2],
+                          failing |-> [k \in Keys |-> IF k \in F THEN 1 ELSE 0]]
+Vectors == {Vector(P, o, s, {}) : P \in SUBSET Keys, o \in Ops, s \in KeySeqs}
+\* @@VEC with a failing key: the node answers an error to the per-key command of ONE key the command names
+\* (all keys existing / none existing); exp carries ErrV = 2000 where the combination is an error
+Naming(k) == {x \in KeySeqs : \E i \in DOMAIN x : x[i] = k}
+ErrVectors == UNION {{Vector(P, o, s, {k}) : P \in {{}, Keys}, o \in Ops, s \in Naming(k)} : k \in Keys}
+ASSUME EmitVectors => \A v \in Vectors \cup ErrVectors : PrintT("@@VEC " \o ToJson(v))
 
 GenInit == /\ Init /\ finished = FALSE
            /\ hist = <<[a |-> "layout", owner |-> owner, present |-> ref]>>
